@@ -91,6 +91,39 @@ seed("C06_m1", "C06", "cfit: background normalisation integral cached on the (lr
 seed("C06_m2", "C06", "GaussianConstr.get_constrain_term skips non-trainable variables", "gauss_constr on a variable that is fixed when the NLL is evaluated (likelihood scan)",
      "missed at first (constrained parameters always free); caught after adding the fixed-parameter phase (set_fix at mean +- k sigma, FCN and CombineFCN): 22 failures", "check strengthened")
 
+# ---- second round (fresh sub-agents, /repo HEAD of 2026-10-01) ----
+seed("C12_s1", "C12", "small_d_matrix: weight table cached per spin in the dtype of the FIRST call", "a float32 evaluation of a spin earlier in the process, then float64 evaluations (2j >= 2)",
+     "missed at first (float64 only); caught after adding the history 'first use of every spin in single precision': 60 failures", "check strengthened")
+seed("C12_s2", "C12", "SU2M.get_euler_angle: acos argument clipped to +-(1 - 1e-10)", "an SU(2) element with beta within 1.4e-5 of 0 or pi (identity, z rotations, boost^-1 Rz boost, Ry(pi) Rz)",
+     "caught (20 failures) by the check extended with end-point rotations in the same round; the earlier version, which had only generic rotations, was not run against it", "check strengthened")
+seed("C08_s1", "C08", "ConfigLoader: a particle with float: g only puts the WIDTH (instead of the mass) on the list skipped by set_params(file)", "float: [g] without m AND the fit moves the width AND save -> fresh ConfigLoader -> set_params",
+     "missed at first (no float-g-only resonance); caught after adding one to the bounds set: 16 failures", "check strengthened")
+seed("C08_s2", "C08", "standard_complex: phase-only ties no longer count as constraints", "only the PHASES of two couplings tied AND the head's radius negative at the end of a BFGS / L-BFGS-B fit",
+     "missed at first; caught after adding the constraint set tied_phase_neg: 16 failures", "check strengthened")
+seed("C15_s1", "C15", "Flatte channel momentum: branch on m > m1+m2 instead of the sign of the documented product", "a Flatte channel with unequal daughter masses evaluated below |m1 - m2|",
+     "missed at first (channels with nearly equal masses); caught after adding an eta' pi like channel: 1 failure", "generator strengthened")
+seed("C15_s2", "C15", "ParticleGS.__init__ order (same change as C15_m1, found independently)", "GS_rho with configured daughter masses", "caught: 3 failures")
+seed("C06_s1", "C06", "cfit nll_grad_batch: background integral cached on the model object (gradient path only)", "one ConfigLoader serving a second get_fcn with another phase-space sample", "caught (second-sample phase): 6 failures")
+seed("C06_s2", "C06", "CombineFCN.nll_grad calls the sub-FCN's public nll_grad: the Gaussian constraint is counted N+1 times", "simultaneous fit AND gauss_constr AND the nll_grad value", "caught: 16 failures")
+seed("C20_s1", "C20", "multi_sampling: the bound is raised before the re-thinning ratio is computed (cut always true)", "a later batch raising the bound after events were accepted under the old one",
+     "caught: 9 failures (event-by-event replay of multi_sampling with the captured RNG); the statistical search found no density deviation in its small sample: no-failing-input-found")
+seed("C20_s2", "C20", "InterpND.build_coeffs: corner index with the opposite bit significance", "n_dim >= 2 and asymmetric node values", "caught: 32 failures")
+seed("C03_s1", "C03", "cal_fitfractions: the active chain list is not reset when res=None", "a sub-selection active when the fractions of the full model are requested",
+     "missed at first; caught after adding the 'selection active' history (which also exposed a genuine defect of method='new', repaired in /repo 399556f): 31 failures", "check strengthened")
+seed("C03_s2", "C03", "set_used_res: break after the first chain (same as C03_m1, found independently)", "a resonance in more than one chain", "caught: 52 failures")
+seed("C09_s1", "C09", "trans_error_matrix uses |dy/dx| (same as C09_m1, found independently)", "upper-only bound and an off-diagonal covariance", "caught: 18 failures")
+seed("C09_s2", "C09", "FitFractions.get_frac_grad divides the cached total gradient IN PLACE", "method='new' AND a second query on the same FitFractions object",
+     "missed at first (one query per object); caught after tying three successive queries: 23 failures", "check strengthened")
+seed("C13_s1", "C13", "Decay.get_ls_list shared through a class-level cache keyed without the C-parity request", "two decay objects with equal J^P, p_break and different C-parity requests in one process",
+     "missed at first (decay objects were only built without C); caught after adding the C-parity family on decay objects: 254 failures", "check strengthened")
+seed("C13_s2", "C13", "cg_coef: integer-valued float arguments sent to the JSON table (string keys miss, KeyError swallowed, 0 returned)", "a boson decaying into two half-integer-spin particles", "caught: 20 failures (exact CG-matrix tie and rank)")
+seed("C16_s1", "C16", "standard_complex: only NON-head members of a tie group count as constrained", "component tie (shared radius or phase) AND negative head radius AND standard_complex()",
+     "missed at first; caught after adding the stream of component ties x negative head radius x standard_complex: 48 failures", "check strengthened")
+seed("C16_s2", "C16", "refresh_vars re-randomises every variable that has a range, fixed ones included", "a fixed parameter with a range and no initial value, then refresh_vars", "caught: 30 failures")
+seed("C05_s1", "C05", "tensor_einsum_reduce_sum: inverse permutation (same as C05_m1, found independently)", "a cyclic reorder of >= 3 axes", "caught: 34 failures")
+seed("C05_s2", "C05", "DecayChain.get_m_dep drops the per-event charge of CP-violating chain couplings", "is_cp couplings AND charge -1 events AND a cached / factorised strategy",
+     "caught (4 failures) by the is_cp scenario added in the same round; the earlier version had no is_cp configuration and was not run against it", "check strengthened")
+
 if __name__ == "__main__":
     lines = ["# Seeded changes (confirmed in a scratch worktree: demo passes clean, fails with the change, pinned tests unchanged)", "",
              "| id | property | change | needs | detection |", "|---|---|---|---|---|"]
